@@ -277,7 +277,7 @@ def replay_history(rec, fresh_tab, idx):
             drift.append('residue at quiescent point: %s' % res)
         # probes: self-contained calls compared with a fresh interpreter
         import functools
-        order = ['uses-ref', 'plain', 'setext', 'composite', 'uses-ref', 'heading-last', 'empties', 'inline-entity'] if idx % 2 else ['uses-ref', 'plain', 'inline-entity', 'empties', 'setext', 'composite', 'heading-last', 'empties']
+        order = ['plain', 'uses-ref', 'setext', 'composite', 'uses-ref', 'heading-last', 'empties', 'inline-entity'] if idx % 2 else ['uses-ref', 'plain', 'inline-entity', 'empties', 'setext', 'composite', 'heading-last', 'empties']
         kinds = ['Html', ['Plain', 'GithubWiki', 'MathJax', 'LaTeX', 'Markdown', 'XWiki'][idx % 6]]
         for pname in order:
             for kind in kinds if pname != 'plain' else ['Html']:
